@@ -85,6 +85,14 @@ def unjson(x):
     return x
 
 
+def _sorted_any(values):
+    """observed values are whatever the code under test produced: never let their types break the report"""
+    try:
+        return sorted(values)
+    except TypeError:
+        return sorted(values, key=lambda x: (type(x).__name__, repr(x)))
+
+
 class Ctx:
     """Per-shard collector of what the monitors observed."""
 
@@ -146,7 +154,7 @@ class Ctx:
         return {'counters': dict(self.counters), 'nontrivial': sorted(self.nontrivial),
                 'violations': self.violations, 'violation_counts': dict(self._vk),
                 'known': dict(self.known), 'known_ex': self.known_ex,
-                'samples': self.samples, 'sets': {k: sorted(v) for k, v in self.sets.items()},
+                'samples': self.samples, 'sets': {k: _sorted_any(v) for k, v in self.sets.items()},
                 'wall_s': time.time() - self.t0}
 
 
